@@ -7,7 +7,7 @@ import math
 
 from rv.core import ctx as _ctx
 from rv.core import instrument
-from rv.core.tolerances import REAL_TOL, SHIFT_TOL
+from rv.core.tolerances import GEOS_BUFFER_SIMPLIFY, REAL_TOL, ROUND_CAP_SHORTFALL, SHIFT_TOL
 from rv.gen import geoms
 
 ANCHORS = ("evaluation/affinity.py", "geometry/operations.py", "geometry/conversion.py")
@@ -37,6 +37,19 @@ def buffered_time_extent(spec, g, tb, fb):
 
     buf = instrument.original(O.buffer_geometry)(g, time_buffer=tb, freq_buffer=fb)
     b = geoms.ref_bounds(geoms.to_spec(buf))
+    # independent sanity bound: whatever joins do, the buffered time extent must reach the
+    # original extent widened by the buffer (minus the polygonal-cap / GEOS simplification band),
+    # clipped at time 0 — otherwise "IoU of the buffered time extents" is computed on a wrong extent
+    b0 = geoms.ref_bounds(spec)
+    k = 1 - ROUND_CAP_SHORTFALL - GEOS_BUFFER_SIMPLIFY
+    lo_need, hi_need = max(b0[0] - k * tb, 0.0), b0[2] + k * tb
+    c = _ctx.CURRENT
+    if c is not None:
+        c.mon("affinity.buffered_extent_sanity")
+        slack = 1e-9 * max(1.0, abs(b0[2]))
+        if b[0] > lo_need + slack or b[2] < hi_need - slack:
+            c.violate("buffered_time_extent", "buffered_time_extent_too_small", observed=[b[0], b[2]], expected={"at_least": [lo_need, hi_need]},
+                      spec={"kind": "buffered_extent", "g": spec, "tb": tb, "fb": fb})
     return (b[0], b[2])
 
 
@@ -174,7 +187,7 @@ def judge(ctx, s1, s2, tb, fb):
 
 
 PLACEMENTS = ["identical", "nested", "partial", "touching", "time_disjoint", "far"]
-BUFFERS = {"small": (1e-3, 10.0), "default": (0.01, 100.0), "large": (1.0, 5000.0), "zero": (0.0, 0.0)}
+BUFFERS = {"small": (1e-3, 10.0), "default": (0.01, 100.0), "large": (1.0, 5000.0), "huge": (4.0, 20000.0), "zero": (0.0, 0.0)}
 
 
 def place(rng, b1, placement, tb):
@@ -227,7 +240,7 @@ def run(ctx):
     for rep in range(reps):
         for t1, t2 in pairs:
             for placement in PLACEMENTS:
-                for bname in ("small", "default", "large", "zero"):
+                for bname in ("small", "default", "large", "huge", "zero"):
                     low = t1 in geoms.ZERO_ONE_D or t2 in geoms.ZERO_ONE_D
                     if bname == "zero" and low:
                         continue
@@ -254,7 +267,7 @@ def run(ctx):
     # random buffers / random placement
     for _ in range(ctx.scale(400, 4000)):
         t1, t2 = rng.choice(geoms.TYPES), rng.choice(geoms.TYPES)
-        tb = rng.choice([1e-4, 0.003, 0.01, 0.05, 0.5, 2.0]); fb = rng.choice([1.0, 30.0, 100.0, 1000.0, 20000.0])
+        tb = rng.choice([1e-4, 0.003, 0.01, 0.05, 0.5, 2.0, 7.5]); fb = rng.choice([1.0, 30.0, 100.0, 1000.0, 20000.0])
         b1 = geoms.random_box(rng, rng.choice(["realistic", "edge", "dyadic"]))
         dt = rng.uniform(-1.5, 1.5) * (b1[1] - b1[0]); df = rng.uniform(-1.5, 1.5) * (b1[3] - b1[2])
         sc = rng.choice([0.3, 1.0, 2.5])
